@@ -286,8 +286,14 @@ def ofStoreF (fuse : Nat) (s : Store P) : CR P (Store P) := heapBuildF fuse s
 
 /-- twins of the constructors: a crash of the rebuild drops the new queue (`Stop.crashedNew`) -/
 def fromVecF (fuse : Nat) (v : Array (Item × P)) : CR P (Store P) := asNew (heapBuildF fuse (Store.fromVec v))
-def fromIterF (fuse : Nat) (xs : Array (Item × P)) : CR P (Store P) := asNew (heapBuildF fuse (Store.fromIter xs))
-def deserializeF (fuse : Nat) (xs : Array (Item × P)) : CR P (Store P) := asNew (heapBuildF fuse (Store.visitSeq xs))
+/-- the capacity request comes first (no comparison yet): an announced lower bound `≥ capLimit` is the capacity panic -/
+def fromIterF (fuse : Nat) (lo : Nat) (xs : Array (Item × P)) : CR P (Store P) := do
+  liftR (reserveC lo)
+  asNew (heapBuildF fuse (Store.fromIter xs))
+/-- the (capped) pre-allocation comes first: it never fails -/
+def deserializeF (fuse : Nat) (hint : Option Nat) (xs : Array (Item × P)) : CR P (Store P) := do
+  liftR (match hint with | some h => reserveC (min h 4096) | none => pure ())
+  asNew (heapBuildF fuse (Store.visitSeq xs))
 
 /-- twin of `MaxQ.pushAll`: the `j`-th push crashes ⇒ the store after `j - 1` pushes with the crashed `j`-th push as per `pushF` -/
 def pushAllF (fuse : Nat) : List (Item × P) → Store P → CR P (Store P)
@@ -297,7 +303,8 @@ def pushAllF (fuse : Nat) : List (Item × P) → Store P → CR P (Store P)
     pushAllF fuse es s
 
 /-- twin of `MaxQ.extend`: rebuild strategy = store-level extend of *all* pairs, then the fused rebuild; push strategy = `pushAllF` -/
-def extendF (fuse : Nat) (s : Store P) (lo : Nat) (xs : Array (Item × P)) : CR P (Store P) :=
+def extendF (fuse : Nat) (s : Store P) (lo : Nat) (xs : Array (Item × P)) : CR P (Store P) := do
+  liftR (reserveC lo)
   let rebuild := if lo ≠ 0 then betterToRebuild s.size lo else false
   if rebuild then heapBuildF fuse (s.extend xs) else pushAllF fuse xs.toList s
 
@@ -649,8 +656,14 @@ def ofStoreF (fuse : Nat) (s : Store P) : CR P (Store P) := heapBuildF fuse s
 
 /-- twins of the constructors: a crash of the rebuild drops the new queue (`Stop.crashedNew`) -/
 def fromVecF (fuse : Nat) (v : Array (Item × P)) : CR P (Store P) := asNew (heapBuildF fuse (Store.fromVec v))
-def fromIterF (fuse : Nat) (xs : Array (Item × P)) : CR P (Store P) := asNew (heapBuildF fuse (Store.fromIter xs))
-def deserializeF (fuse : Nat) (xs : Array (Item × P)) : CR P (Store P) := asNew (heapBuildF fuse (Store.visitSeq xs))
+/-- the capacity request comes first (no comparison yet): an announced lower bound `≥ capLimit` is the capacity panic -/
+def fromIterF (fuse : Nat) (lo : Nat) (xs : Array (Item × P)) : CR P (Store P) := do
+  liftR (reserveC lo)
+  asNew (heapBuildF fuse (Store.fromIter xs))
+/-- the (capped) pre-allocation comes first: it never fails -/
+def deserializeF (fuse : Nat) (hint : Option Nat) (xs : Array (Item × P)) : CR P (Store P) := do
+  liftR (match hint with | some h => reserveC (min h 4096) | none => pure ())
+  asNew (heapBuildF fuse (Store.visitSeq xs))
 
 /-- twin of `DQ.pushAll` -/
 def pushAllF (fuse : Nat) : List (Item × P) → Store P → CR P (Store P)
@@ -660,7 +673,8 @@ def pushAllF (fuse : Nat) : List (Item × P) → Store P → CR P (Store P)
     pushAllF fuse es s
 
 /-- twin of `DQ.extend` -/
-def extendF (fuse : Nat) (s : Store P) (lo : Nat) (xs : Array (Item × P)) : CR P (Store P) :=
+def extendF (fuse : Nat) (s : Store P) (lo : Nat) (xs : Array (Item × P)) : CR P (Store P) := do
+  liftR (reserveC lo)
   let rebuild := if lo ≠ 0 then betterToRebuild s.size lo else false
   if rebuild then heapBuildF fuse (s.extend xs) else pushAllF fuse xs.toList s
 
@@ -773,20 +787,21 @@ def stepF (fuse : Nat) (q : Q P) : Op P → CRQ P (Q P × Out P)
   | .extend lo xs => do
     let s ← liftQ q.kind (match q.kind with | .pq => MaxQ.extendF fuse q.s lo xs | .dpq => DQ.extendF fuse q.s lo xs)
     pure ({ q with s := s }, .unit)
-  | .append xs => do
-    let (s, _) ← liftQ q.kind
+  | .append o => do
+    let (s, o') ← liftQ q.kind
       (match q.kind with
-       | .pq => MaxQ.appendF fuse q.s (Store.fromVec xs)
-       | .dpq => DQ.appendF fuse q.s (Store.fromVec xs))
-    pure ({ q with s := s }, .unit)
+       | .pq => MaxQ.appendF fuse q.s o
+       | .dpq => DQ.appendF fuse q.s o)
+    pure ({ q with s := s }, .other o'.size o'.map.size o'.heap.size o'.qp.size)
   | .fromVec xs => do
     let s ← liftQ q.kind (match q.kind with | .pq => MaxQ.fromVecF fuse xs | .dpq => DQ.fromVecF fuse xs)
     pure ({ q with s := s }, .unit)
-  | .fromIter xs => do
-    let s ← liftQ q.kind (match q.kind with | .pq => MaxQ.fromIterF fuse xs | .dpq => DQ.fromIterF fuse xs)
+  | .fromIter lo xs => do
+    let s ← liftQ q.kind (match q.kind with | .pq => MaxQ.fromIterF fuse lo xs | .dpq => DQ.fromIterF fuse lo xs)
     pure ({ q with s := s }, .unit)
-  | .deserialize xs => do
-    let s ← liftQ q.kind (match q.kind with | .pq => MaxQ.deserializeF fuse xs | .dpq => DQ.deserializeF fuse xs)
+  | .deserialize hint xs => do
+    let s ← liftQ q.kind
+      (match q.kind with | .pq => MaxQ.deserializeF fuse hint xs | .dpq => DQ.deserializeF fuse hint xs)
     pure ({ q with s := s }, .unit)
   | .convert =>
     match q.kind with
@@ -860,6 +875,7 @@ private def eQO (a b : Q Nat × Out Nat) : Bool :=
    | .bool x, .bool y => x == y
    | .entries x, .entries y => decide (x = y)
    | .outs x, .outs y => decide (x = y)
+   | .other a b c d, .other a' b' c' d' => decide (a = a' ∧ b = b' ∧ c = c' ∧ d = d')
    | _, _ => false)
 
 private def it (k : Nat) : Item := ⟨k, 100 + k⟩
@@ -914,8 +930,8 @@ example : agreeB eS (MaxQ.extendF 0 m9 100 w3) (PQ.MaxQ.extend m9 100 w3) = true
   decide +kernel
 example : agreeB eS (MaxQ.ofStoreF 0 d7) (PQ.MaxQ.ofStore d7) = true := by decide +kernel
 example : agreeB eS (MaxQ.fromVecF 0 v7) (PQ.MaxQ.fromVec v7) = true := by decide +kernel
-example : agreeB eS (MaxQ.fromIterF 0 (v7 ++ v3)) (PQ.MaxQ.fromIter (v7 ++ v3)) = true := by decide +kernel
-example : agreeB eS (MaxQ.deserializeF 0 (v7 ++ v3)) (PQ.MaxQ.deserialize (v7 ++ v3)) = true := by decide +kernel
+example : agreeB eS (MaxQ.fromIterF 0 10 (v7 ++ v3)) (PQ.MaxQ.fromIter 10 (v7 ++ v3)) = true := by decide +kernel
+example : agreeB eS (MaxQ.deserializeF 0 (some (2 ^ 64 - 1)) (v7 ++ v3)) (PQ.MaxQ.deserialize (some (2 ^ 64 - 1)) (v7 ++ v3)) = true := by decide +kernel
 -- min-max heap
 example : agreeB eS (DQ.heapifyF 0 d7 0) (PQ.DQ.heapify d7 0) = true := by decide +kernel
 example : agreeB eS (DQ.heapifyF 0 d7 1) (PQ.DQ.heapify d7 1) = true := by decide +kernel
@@ -947,8 +963,8 @@ example : agreeB eS (DQ.extendF 0 d7 0 v3) (PQ.DQ.extend d7 0 v3) = true := by d
 example : agreeB eS (DQ.extendF 0 d9 100 w3) (PQ.DQ.extend d9 100 w3) = true := by decide +kernel
 example : agreeB eS (DQ.ofStoreF 0 m7) (PQ.DQ.ofStore m7) = true := by decide +kernel
 example : agreeB eS (DQ.fromVecF 0 v7) (PQ.DQ.fromVec v7) = true := by decide +kernel
-example : agreeB eS (DQ.fromIterF 0 (v7 ++ v3)) (PQ.DQ.fromIter (v7 ++ v3)) = true := by decide +kernel
-example : agreeB eS (DQ.deserializeF 0 (v7 ++ v3)) (PQ.DQ.deserialize (v7 ++ v3)) = true := by decide +kernel
+example : agreeB eS (DQ.fromIterF 0 10 (v7 ++ v3)) (PQ.DQ.fromIter 10 (v7 ++ v3)) = true := by decide +kernel
+example : agreeB eS (DQ.deserializeF 0 none (v7 ++ v3)) (PQ.DQ.deserialize none (v7 ++ v3)) = true := by decide +kernel
 -- histories
 private def qm7 : Q Nat := ⟨.pq, m7⟩
 private def qd7 : Q Nat := ⟨.dpq, d7⟩
@@ -962,7 +978,9 @@ private def ops : List (Op Nat) :=
    .changePriorityBy 2 (· + 80), .remove 3, .getMut 4 (fun i => { i with payload := 0 }), .popFront, .popBack,
    .popFrontIf popYes, .popBackIf popNo, .peekFrontMut (fun i => { i with payload := 1 }),
    .peekBackMut (fun i => { i with payload := 2 }), .retainMut keepOdd, .iterMut false prog, .iterMut true prog,
-   .extend 0 v3, .extend 100 w3, .append v3, .fromVec v3, .fromIter (v3 ++ w3), .deserialize (v3 ++ w3), .convert, .clear,
+   .extend 0 v3, .extend 100 w3, .append (Store.fromVec v3), .append m9, .fromVec v3, .fromIter 0 (v3 ++ w3),
+   .fromIter 6 (v3 ++ w3), .fromIter (2 ^ 61) (v3 ++ w3), .extend (2 ^ 61) v3, .deserialize none (v3 ++ w3),
+   .deserialize (some (2 ^ 64 - 1)) (v3 ++ w3), .convert, .clear,
    .drain, .capacityOp]
 example : (ops.all fun op => agreeQ (stepF 0 qm7 op) (step qm7 op)) = true := by decide +kernel
 example : (ops.all fun op => agreeQ (stepF 0 qd7 op) (step qd7 op)) = true := by decide +kernel
@@ -1022,8 +1040,8 @@ example : (sweep 40 d7.ticks (fun z => MaxQ.ofStoreF z d7) (fun s => wfB s && s.
 example : (sweep 40 m7.ticks (fun z => MaxQ.iterMutDropF z m7 prog) (fun s => wfB s && s.size == 7)).1 = true := by decide +kernel
 -- a constructor that crashes drops the queue it was building
 example : (match MaxQ.fromVecF 1 v7 with | .error .crashedNew => true | _ => false) = true := by decide +kernel
-example : (match DQ.fromIterF 3 v7 with | .error .crashedNew => true | _ => false) = true := by decide +kernel
-example : sweep 40 0 (fun z => MaxQ.deserializeF z v7) (fun _ => false) = (true, 0) := by decide +kernel
+example : (match DQ.fromIterF 3 7 v7 with | .error .crashedNew => true | _ => false) = true := by decide +kernel
+example : sweep 40 0 (fun z => MaxQ.deserializeF z (some 7) v7) (fun _ => false) = (true, 0) := by decide +kernel
 
 example : sweep 30 d7.ticks (fun z => DQ.heapifyF z d7 0) (fun s => wfB s && s.size == 7) = (true, 6) := by decide +kernel
 example : (sweep 30 d7.ticks (fun z => DQ.popMinF z d7) (fun s => wfB s && s.size == 6)).1 = true := by decide +kernel
